@@ -54,6 +54,7 @@ func (m *UnboundedMailbox) Hold() {
 
 // Release 放开 Hold 占住的处理权，并处理期间缓存的消息（系统消息优先）。
 func (m *UnboundedMailbox) Release() {
+	verifhook.Yield("mb.release.go", m)
 	go m.process()
 }
 
